@@ -13,7 +13,17 @@ DEFECTS = ["no_set_scan", "no_transitive", "no_host_roots", "rollback_drops"]
 REPAIRED = {"no_set_scan", "no_transitive", "rollback_drops"}
 
 
-def render(c, prefix):
+HOLD_MODES = {
+    # how a function value is kept alive after its name is redefined: by the embedder (Engine::extract_value,
+    # the model's `hold`), or by the SCRIPT in mutable heap storage that only the collector's heap walk reaches
+    "box": ("(define keep{k}@@ (box {n}@@))", "((unbox keep{k}@@))"),
+    "vector": ("(define keep{k}@@ (vector 0 {n}@@))", "((vector-ref keep{k}@@ 1))"),
+    "captured": ("(define keep{k}@@ (let ([c #f]) (set! c {n}@@) (lambda () (c))))", "(keep{k}@@)"),
+    "boxed-list": ("(define keep{k}@@ (box (list 1 {n}@@)))", "((cadr (unbox keep{k}@@)))"),
+}
+
+
+def render(c, prefix, hold_mode="host"):
     """Globals.tla case -> replayer case (one engine history + probes)."""
     steps = []
     hold_order = []
@@ -35,7 +45,10 @@ def render(c, prefix):
                     parts.append(f"({r['n']}@@)")
             steps.append({"src": f"(define ({h['n']}@@) (list 't{h['tag']} {' '.join(parts)}))", "class": "ok"})
         elif op == "hold":
-            steps.append({"op": f"hold:{h['n']}@@", "class": "ok"})
+            if hold_mode == "host":
+                steps.append({"op": f"hold:{h['n']}@@", "class": "ok"})
+            else:
+                steps.append({"src": HOLD_MODES[hold_mode][0].format(k=len(hold_order), n=h["n"]), "class": "ok"})
             hold_order.append(h["bid"])
         elif op == "recycle":
             steps.append({"op": "force_recycle", "class": "ok"})
@@ -47,12 +60,21 @@ def render(c, prefix):
     for p, exp in zip(c["probes"], c["expect"]):
         if p["kind"] == "callname":
             steps.append({"src": f"(emit ({p['n']}@@))", "class": "ok", "emit": [exp]})
-        else:
+        elif hold_mode == "host":
             steps.append({"op": f"call_held:{hold_order.index(p['bid'])}", "class": "ok", "emit": [exp]})
+        else:
+            steps.append({"src": "(emit " + HOLD_MODES[hold_mode][1].format(k=hold_order.index(p["bid"])) + ")",
+                          "class": "ok", "emit": [exp]})
     for v in c["vals"]:
         steps.append({"src": f"(emit {v['n']}@@)", "class": "ok", "emit": [str(v["v"])]})
     hid = hashlib.sha1(json.dumps(c["hist"], sort_keys=True).encode()).hexdigest()[:12]
-    tag = "blame:" + ",".join(sorted(c["blame"])) if c["blame"] else ""
+    blame = set(c["blame"])
+    if hold_mode != "host":
+        # what the script keeps in heap storage IS reached by the recycler's walk: the host-roots deviation
+        # does not apply, such a history must behave ideally
+        blame.discard("no_host_roots")
+        hid += "-" + hold_mode
+    tag = "blame:" + ",".join(sorted(blame)) if blame else ""
     return {"id": f"{prefix}-{hid}", "fresh": False, "steps": steps, "tag": tag,
             "model": {"c06": c["c06"], "c07": c["c07"]}}
 
@@ -65,7 +87,7 @@ def nontrivial(case):
     # a history is non-trivial when it contains a redefinition, recycle, failure or host hold
     srcs = [s.get("src", "") + (s.get("op") or "") for s in case["steps"]]
     defs = [s.split()[1] for s in srcs if s.startswith("(define ")]
-    return len(defs) != len(set(defs)) or any("force_recycle" in s or "hold:" in s or "undefined-fn" in s for s in srcs)
+    return len(defs) != len(set(defs)) or any("force_recycle" in s or "hold:" in s or "(define keep" in s or "undefined-fn" in s for s in srcs)
 
 
 def run(tier, seed):
@@ -90,24 +112,44 @@ def run(tier, seed):
             k = render(c, "cex-" + d)
             k["tag"] = ("regression:" if d in REPAIRED else "blame:") + d
             cases.append(k)
+            if d == "no_host_roots":
+                cases += [render(c, "cex-" + d, m) for m in HOLD_MODES]
 
     # 3. all histories of the as-is model (exhaustive to 4 steps; 5 steps: quick = seeded sample,
     #    thorough = all) + seeded random walks of 8 steps
     res = vlib.run_tlc("Globals", "MC_Globals_asis4.cfg", work, workers=8, timeout=900)
     r.add_tlc(res)
+    raw = [(c, "h4") for c in res["cases"]]
     cases += [render(c, "h4") for c in res["cases"]]
     res = vlib.run_tlc("Globals", "MC_Globals_asis.cfg", work, workers=8, timeout=1200)
     r.add_tlc(res)
+    raw += [(c, "h5") for c in res["cases"]]
     five = [render(c, "h5") for c in res["cases"]]
     if tier == "quick":
         five = rnd.sample(five, min(2500, len(five)))
     cases += five
     n = 300 if tier == "quick" else 5000
     res = vlib.run_tlc("Globals", "MC_Globals_sim.cfg", work, workers=4, timeout=900, simulate=f"num={n}", seed=seed)
+    raw += [(c, "sim") for c in res["cases"]]
     sim = [render(c, "sim") for c in res["cases"]]
     if tier == "quick":
         sim = rnd.sample(sim, min(2500, len(sim)))
     cases += sim
+    # the histories with a hold step again, the function kept by the script in mutable heap storage
+    # (first the histories in which keeping the function alive MATTERS - the as-is model blames the host-roots
+    # deviation, i.e. a slot only the kept function references is recycled - in every mode; then a sample of the rest)
+    held = [(c, p) for c, p in raw if any(h["op"] == "hold" for h in c["hist"])]
+    matters = [(c, p) for c, p in held if "no_host_roots" in c["blame"]]
+    if tier == "quick":
+        matters = rnd.sample(matters, min(400, len(matters)))
+    for c, p in matters:
+        cases += [render(c, p, m) for m in HOLD_MODES]
+    rest = [(c, p) for c, p in held if "no_host_roots" not in c["blame"]]
+    if tier == "quick":
+        rest = rnd.sample(rest, min(300, len(rest)))
+    for i, (c, p) in enumerate(rest):
+        cases.append(render(c, p, list(HOLD_MODES)[i % len(HOLD_MODES)]))
+    r.notes.append(f"script-held variants: {len(matters)} histories in which the kept function decides a recycle x {len(HOLD_MODES)} modes, {len(rest)} others")
     # dedup ids
     seen, uniq = set(), []
     for c in cases:
